@@ -691,14 +691,35 @@ def make_truth(spec, infos, taplog, frames_meta, drop, cut_lo, cut_hi, dups):
             fr = []
             expected = []
             dm = info.get("dmeta")
+            largest = {}
+            undecodable = 0
             for e in taplog:
                 if e["conn"] == cid:
                     fr.append({"i": e["i"], "d": e["d"], "dg": e["dg"], "ts": e["ts"], "dup": bool(e.get("dup")),
                                "kept": e["i"] in kept})
-                    if dm is not None and e["i"] in kept and dm[e["dg"]]["stream"]:
+                    if dm is None or e["i"] not in kept:
+                        continue
+                    # A receiver can only decrypt a packet whose truncated packet number still decodes to the right
+                    # value on arrival (RFC 9000 A.3); reordering beyond the window the sender encoded for makes a packet
+                    # undecryptable for everyone, so its data is not part of what can be exported.
+                    payload = b""
+                    for pk in dm[e["dg"]]["pk"]:
+                        if pk["kind"] == "retry":
+                            continue
+                        key = (e["d"], pk["space"])
+                        L = largest.get(key, int((spec.get("pn_preset") or {}).get(e["d"], {}).get(pk["space"], 0)) if pk["space"] == "RTT_1" else 0)
+                        bits = 8 * pk["pnlen"]
+                        from .quicref import decode_pn
+                        if decode_pn(L, pk["pn"] & ((1 << bits) - 1), bits) != pk["pn"]:
+                            undecodable += 1
+                            fr[-1]["undecodable"] = True
+                            continue
+                        largest[key] = max(L, pk["pn"])
+                        payload += b"".join(bytes.fromhex(m["data"]) for m in pk["frames"] if m["n"] == "StreamFrame")
+                    if payload:
                         for _ in range(1 + dups.get(e["i"], 0)):
-                            expected.append({"d": e["d"], "payload": dm[e["dg"]]["stream"], "ts": e["ts"], "dg": e["dg"],
-                                             "i": e["i"]})
+                            expected.append({"d": e["d"], "payload": payload, "ts": e["ts"], "dg": e["dg"], "i": e["i"]})
+            t["undecodable_packets"] = undecodable
             t["frames"] = fr
             if dm is not None:
                 t["expected"] = expected
